@@ -126,6 +126,9 @@ def _single_exit(stmts: List[ast.stmt], on_return) -> Tuple[List[ast.stmt], bool
         if isinstance(s, ast.Return):
             out += on_return(s.value)
             return out, True
+        if isinstance(s, ast.Raise):
+            out.append(s)
+            return out, True  # the path ends here: nothing falls through
         if isinstance(s, ast.If) and _contains(s, ast.Return):
             rest = stmts[i + 1:]
             b, rb = _single_exit(list(s.body) + [copy.deepcopy(x) for x in rest], on_return)
@@ -343,7 +346,18 @@ def _inline_site(prog: Program, f: FunctionInfo, body, caller: FunctionInfo, cal
                 callee_assigned.add(n.id)
     callee_locals = _assigned_names(f.node)
 
+    # a callee local may keep its name when it only collides with a target of the call statement that is not also
+    # passed in: the target is overwritten by the call anyway and nothing reads it while the inlined body runs
+    arg_names_all = {n.id for a_ in list(call.args) + [k_.value for k_ in call.keywords] for n in ast.walk(a_) if isinstance(n, ast.Name)}
+    reuse = set()
+    if kind == "assign":
+        for t_ in stmt.targets:
+            reuse |= {n.id for n in ast.walk(t_) if isinstance(n, ast.Name)}
+        reuse -= arg_names_all
+
     def fresh(nm: str) -> str:
+        if nm in reuse and nm not in params:
+            return nm
         new = nm if nm not in taken else f"{nm}__{k}"
         while new in taken and new != nm:
             new += "_"
@@ -782,12 +796,15 @@ def normalise(prog: Program) -> Tuple[Program, List[str]]:
         if ng:
             changed_alias = True
             log.append(f"{fn.qualname} ({ng} any/all over a literal tuple unrolled)")
-        if any(isinstance(n, ast.Assign) and isinstance(n.value, ast.IfExp) and len(n.targets) == 1 and isinstance(n.targets[0], ast.Name) for n in ast.walk(fn.node)) and body_hash(fn.node) not in _inventory()[1]:
+        def _simple_target(t_):
+            return isinstance(t_, ast.Name) or (isinstance(t_, ast.Attribute) and isinstance(t_.value, ast.Name)) or (isinstance(t_, ast.Subscript) and isinstance(t_.value, (ast.Name, ast.Attribute)) and isinstance(t_.slice, ast.Constant))
+
+        if any(isinstance(n, ast.Assign) and isinstance(n.value, ast.IfExp) and len(n.targets) == 1 and _simple_target(n.targets[0]) for n in ast.walk(fn.node)) and body_hash(fn.node) not in _inventory()[1]:
             # ``x = a if c else b`` at statement level -> if/else (only in functions that differ from the reference tree:
             # the rules were written against the reference spelling)
             class _S(_IfExpSplitter):
                 def visit_Assign(self, node):
-                    if isinstance(node.value, ast.IfExp) and len(node.targets) == 1 and isinstance(node.targets[0], ast.Name):
+                    if isinstance(node.value, ast.IfExp) and len(node.targets) == 1 and _simple_target(node.targets[0]):
                         return super().visit_Assign(node)
                     return node
 
